@@ -167,6 +167,52 @@ impl<'ast> Visit<'ast> for Lets {
     }
 }
 
+/// substitute let-bound names inside an expression (identifier-wise, a few rounds), dropping `unsafe { }` wrappers
+fn expand(lets: &HashMap<String, String>, e: &str) -> String {
+    fn strip_unsafe(e: &str) -> String {
+        let mut e = e.to_string();
+        while let Some(inner) = e.strip_prefix("unsafe{").and_then(|x| x.strip_suffix('}')) {
+            e = inner.to_string();
+        }
+        e
+    }
+    let mut e = strip_unsafe(e);
+    for _ in 0..4 {
+        let mut out = String::new();
+        let mut cur = String::new();
+        let mut changed = false;
+        let mut prev: Option<char> = None;
+        for ch in e.chars().chain(std::iter::once('\0')) {
+            if ch.is_alphanumeric() || ch == '_' {
+                cur.push(ch);
+            } else {
+                if !cur.is_empty() {
+                    // not a field / method / path segment
+                    let is_member = matches!(prev, Some('.') | Some(':'));
+                    match lets.get(&cur) {
+                        Some(v) if !is_member && ch != '(' && ch != ':' => {
+                            out.push_str(&strip_unsafe(v));
+                            changed = true;
+                        }
+                        _ => out.push_str(&cur),
+                    }
+                    prev = cur.chars().last();
+                    cur.clear();
+                }
+                if ch != '\0' {
+                    out.push(ch);
+                    prev = Some(ch);
+                }
+            }
+        }
+        e = out;
+        if !changed {
+            break;
+        }
+    }
+    e
+}
+
 fn resolve(lets: &HashMap<String, String>, e: &str) -> String {
     let mut e = e.to_string();
     for _ in 0..4 {
@@ -241,7 +287,7 @@ fn alloc_layout(f: &syn::ImplItemFn) -> String {
     let mut c = Calls { name: "alloc", found: Vec::new(), depth: 0 };
     c.visit_block(&f.block);
     match c.found.as_slice() {
-        [(args, false)] if args.len() == 1 => canon_layout(&resolve(&l.lets, &args[0])),
+        [(args, false)] if args.len() == 1 => canon_layout(&expand(&l.lets, &resolve(&l.lets, &args[0]))),
         _ => format!("?{} alloc calls", c.found.len()),
     }
 }
@@ -262,7 +308,7 @@ struct Walk {
 
 impl Walk {
     fn ptr(&self, e: &str) -> &'static str {
-        let e = e.trim_end_matches(".cast()").trim_end_matches(".cast::<u8>()");
+        let e = e.trim_end_matches(".cast()").trim_end_matches(".cast::<u8>()").trim_end_matches(".cast::<_>()");
         let e = e.strip_suffix("as*mutu8").unwrap_or(e);
         if Some(e) == self.head.as_deref() {
             ".head"
@@ -389,6 +435,42 @@ impl Walk {
                 }
                 self.out.push(".loopEnd".into());
             }
+            Expr::Loop(l) => {
+                // `loop { [let node = head;] if <head | node>.is_null() { break; } .. }`
+                let stmts = &l.body.stmts;
+                let mut i = 0;
+                let mut pre_saved: Option<String> = None;
+                if let Some(Stmt::Local(loc)) = stmts.first() {
+                    if let (syn::Pat::Ident(pi), Some(init)) = (&loc.pat, &loc.init) {
+                        if Some(squash(&toks(&*init.expr)).as_str()) == self.head.as_deref() {
+                            pre_saved = Some(pi.ident.to_string());
+                            i = 1;
+                        }
+                    }
+                }
+                let test_ok = match stmts.get(i) {
+                    Some(Stmt::Expr(Expr::If(f), _)) if f.else_branch.is_none() => {
+                        let c = squash(&toks(&*f.cond));
+                        let b = squash(&toks(&f.then_branch));
+                        let who = c.strip_suffix(".is_null()").unwrap_or("");
+                        (b == "{break;}" || b == "{break}") && !who.is_empty() && (Some(who) == self.head.as_deref() || Some(who) == pre_saved.as_deref())
+                    }
+                    _ => false,
+                };
+                if test_ok {
+                    self.out.push(".whileHeadNonNull".into());
+                    if let Some(n) = pre_saved {
+                        self.current = Some(n);
+                        self.out.push(".saveCurrent".into());
+                    }
+                    for s in &stmts[i + 1..] {
+                        self.stmt(s);
+                    }
+                    self.out.push(".loopEnd".into());
+                } else {
+                    self.other("loop without the null test first");
+                }
+            }
             Expr::Assign(a) => {
                 let l = squash(&toks(&*a.left));
                 let r = squash(&toks(&*a.right));
@@ -457,7 +539,7 @@ pub fn emit(src: &Path, out: &mut String) {
                 if args.len() == 2 {
                     let p = resolve(&l.lets, &args[0]);
                     own = p == "self.items.as_ptr()" || p == "self.items.as_ptr().cast()";
-                    rel_l = canon_layout(&resolve(&l.lets, &args[1]));
+                    rel_l = canon_layout(&expand(&l.lets, &resolve(&l.lets, &args[1])));
                 }
             }
         }
